@@ -81,7 +81,7 @@ CHECKS = {
         text=("Proof: C10_sound (a checked non-empty range never wraps and lies in one aligned block, for every start and every size_t extent), "
               "C10_sound_region/_outside (wholly inside / wholly outside a region), C10_complete(_region) (every non-empty in-block request passes), "
               "C10_ops_memset/memcpy, C10_too_large, C10_null_start, C10_counted and C10_safe_pointer (element-counted variants, no side condition after the repairs), "
-              "C10_grant_untrusted_allocator (copy_memory_or_grant_access writes only inside the region whatever the allocator inside the sandbox returns; op `grantf`); ops `grantg`/`denyg` on a backend flavour that declares can_grant_deny_access and grants, refuses with the caller's pointer or refuses with null. "
+              "C10_grant_untrusted_allocator (copy_memory_or_grant_access writes only inside the region whatever the allocator inside the sandbox returns; op `grantf`); C10_deny_copy_before_free (the copy path of copy_memory_or_deny_access holds the source bytes as they were, whatever the sandbox's free then writes; op `denyfs`); ops `grantg`/`denyg` on a backend flavour that declares can_grant_deny_access and grants, refuses with the caller's pointer or refuses with null. "
               "Tied to the code by ~6k-10k boundary ops over all nine operations with byte diffs of both regions and the application arena. "
               "Four genuine defects were found by this check and repaired (fix: commits bd117b1, 2d57aba, 8abe039, 66ca6e3)."),
         note=NOTE + "For application-side ranges 'outside' is judged per 2^16-aligned block (what a mask-based backend can tell)."),
@@ -165,6 +165,7 @@ CHECKS = {
         technique="Lean 4 theorems on a mutually-recursive call-tree semantics (mutual structural induction) composed with the C13 ownership invariant + differential execution of random trees on three backend/TLS configurations",
         text=("Proof: C12_dispatch (the function registered for the entry point runs next, with the executing sandbox and the guest's argument), C12_result, C12_executing_sandbox (for trees of any "
               "depth across any sandboxes every callback and every guest function observes the innermost executing sandbox -- the nesting automaton checks cbRun/guest events), "
+              "C12_tls_refines / C12_tls_executing_sandbox / C12_tls_dispatch (the REAL mechanism -- the per-thread record thread_data.sandbox / last_callback_invoked saved, set and restored by impl_invoke_with_func_ptr and read by trampoline and interceptor -- emits exactly the events of that semantics on every tree and leaves the record as found; the calls engine runs this machine, incl. helper sandboxes created and destroyed inside callback bodies), "
               "C12_dispatch_after_history / C12_owned_is_reachable (after ANY registration history an occupied entry point designates a function held by a live owner and vice versa, by the C13 invariant), "
               "backends_thread_data_is_thread_local (source fact). Tied to the code by random registration histories + call trees on vsbx (foreign ABI), noop, noop with embedder-provided TLS, "
               "and the dylib backend executed for real (guest functions in a dlopen'ed shared object), with library- and embedder-provided TLS."),
@@ -189,7 +190,7 @@ CHECKS = {
     "C20": dict(
         engine="casts", design_ref="DESIGN.md §6 C20",
         technique="Lean 4 theorems (identity of the opaque image, cast = plain cast after the C06 load, address preservation by the C04 cell-relative translation) + differential execution",
-        text=("Proof: C20_opaque_rt, C20_cast_value, C20_cast_value_tvol (a sandbox-memory source is first loaded per C06: same value or abort), C20_cast_identity_in_range, C20_cast_addr (pointer casts keep "
+        text=("Proof: C20_opaque_rt, C20_cast_value, C20_cast_value_tvol (a sandbox-memory source is first loaded per C06: same value or abort), C20_cast_identity_in_range, C20_castf_value / C20_castf_exact / C20_castf_nearest / C20_castf_single_rounding / C20_float_to_int (casts that involve float, double, long double: one round-to-nearest-even of the exact value, truncation toward zero), C20_cast_addr (pointer casts keep "
               "the designated address; a source stored in sandbox memory is translated relative to its own cell). Tied to the code by opaque round trips with memcmp of the images (integers, pointers, "
               "array, struct), sandbox_static_cast over 14x14 type pairs from tainted and tainted_volatile sources, pointer casts from both kinds of source, a callback returning tainted_opaque, and the "
               "same value passed as tainted and as tainted_opaque to a sandbox function."),
